@@ -132,6 +132,12 @@ def instance(schema, a, B):
         _pi(B)
         x, = a
         return implies(land(app('<', '(- (/ pi 2.0))', x), app('<', x, '(/ pi 2.0)')), app('>', C(x), '0.0'))
+    if schema == 'away_from_half_pi':
+        # |x| <= pi/2 - 1/1000  =>  |sin x| <= cos(1/1000) = 0.99999950000004... <= 0.9999996  and  cos x >= sin(1/1000) = 0.00099999983... >= 0.00099
+        _pi(B)
+        x, = a
+        return implies(land(app('<=', '(- (- (/ pi 2.0) 0.001))', x), app('<=', x, '(- (/ pi 2.0) 0.001)')),
+                       land(app('<=', '(- 0.9999996)', S(x)), app('<=', S(x), '0.9999996'), app('>=', C(x), '0.00099')))
     if schema == 'periodic_2pi':
         # sin/cos(x + 2 pi k) for integer k
         _pi(B)
